@@ -199,12 +199,16 @@ def ker_consist(ctx):
         for _ in range(2):
             mp = {}
             for a in A.atoms_of(full):
-                if a in nxt_v:
-                    k_ = nxt_v[a]
-                    if (id(pax), k_) not in vel_next:
-                        vel_next[(id(pax), k_)] = expand_eps(
-                            evx, defs, pax['vel'].stores[(rk1, k_)])
-                    mp[a] = vel_next[(id(pax), k_)]
+                base_, _, ver_ = a.partition('@')
+                if base_ in nxt_v:
+                    k_ = nxt_v[base_]
+                    ver_ = int(ver_) if ver_ else 1
+                    if (id(pax), k_, ver_) not in vel_next:
+                        # the value of the store the element was read after (see PArr loads)
+                        vals_ = [v_ for r_, i_, v_, _n in pax['vel'].store_log
+                                 if r_ == rk1 and tuple(i_) == (k_,)]
+                        vel_next[(id(pax), k_, ver_)] = expand_eps(evx, defs, vals_[ver_ - 1])
+                    mp[a] = vel_next[(id(pax), k_, ver_)]
             if not mp:
                 break
             full = A.subst(full, mp)
